@@ -13,6 +13,7 @@ import VotelibProofs.Lemmas.C12JR
 import VotelibProofs.Lemmas.C12Score
 import VotelibProofs.Lemmas.C12Star
 import VotelibProofs.Lemmas.C12Trunc
+import VotelibProofs.Lemmas.C12Alloc
 import VotelibProofs.Lemmas.C12MJ
 import VotelibModel.Gen.Quota
 namespace VL.C12
@@ -576,9 +577,51 @@ theorem star_eq_schulze_of_runoff (ac : Nat) (af : Rat) (cfg : Cfg) (votes : SPr
   unfold Score.star
   cases starRunoff ac af cfg votes n <;> rfl
 
-/-- the ordinary single-winner case on a concrete profile: the score leader 0 loses the run-off to 1 -/
-example : Score.star 1 0 (plainCfg .sum) [([(0, 5), (1, 4), (2, 0)], 2), ([(0, 0), (1, 1), (2, 0)], 3)] 1
+/-- the ordinary single-winner case on a concrete profile: candidate 0 leads on scores (13 : 6 : 0) and loses the run-off
+    to candidate 1, whom three of the five voters prefer -/
+example : Score.star 1 0 (plainCfg .sum) [([(0, 5), (1, 0), (2, 0)], 2), ([(0, 1), (1, 2), (2, 0)], 3)] 1
     = .ok [Slot.cand 1] := by decide +kernel
+example : convert (plainCfg .sum) [([(0, 5), (1, 0), (2, 0)], 2), ([(0, 1), (1, 2), (2, 0)], 3)]
+    = .ok [(0, 13), (1, 6), (2, 0)] := by decide +kernel
+
+/-! ### Allocated score -/
+
+/-- **Each seat spends one quota of the strongest supporters.**  `_subtract_votes` for the winner `c` of a round — on a
+    `current_votes` dict with distinct ballots and positive weights, quota `q ≥ 0` — whenever it returns: the total ballot
+    weight drops by exactly `min q (weight of the ballots grading c)` (one quota, or all supporters if they are fewer),
+    the weight is taken grade group by grade group from the top (`findBestVotes_spec`: each step addresses exactly the
+    ballots giving `c` the highest remaining grade), and the winner's grades then leave the ballots without changing the
+    total.  (That the loop can fail to return at all is the open finding: `allocated_*_witness`.) -/
+theorem allocated_spends_one_quota (cv : WProfile) (c : Cand) (q : Rat) (hq : 0 ≤ q) (hwf : WFW cv)
+    (cv' : WProfile) (h : subtractVotes cv c 1 q = .ok cv') :
+    totalW cv' = totalW cv - min q (supportW cv c) := by
+  unfold subtractVotes at h
+  cases hf : fractionOut (cv.length + 1) cv c q with
+  | error e => rw [hf] at h; cases h
+  | ok cv1 =>
+    rw [hf] at h
+    simp only [bind, Except.bind, if_true, pure, Except.pure] at h
+    injection h with h
+    subst h
+    obtain ⟨h1, _, _⟩ := fractionOut_spends _ cv c q cv1 hf (by omega) hq hwf
+    rw [totalW_merge cv1 (fun b => b.filter (fun p => p.1 ≠ c)) [], ← h1]
+    simp [totalW]
+
+/-- the spending itself: exact amount, the result is again a well-formed dict, and ballots not grading the winner are
+    untouched -/
+theorem allocated_fraction_out_spec (cv : WProfile) (c : Cand) (q : Rat) (hq : 0 ≤ q) (hwf : WFW cv)
+    (cv' : WProfile) (h : fractionOut (cv.length + 1) cv c q = .ok cv') :
+    totalW cv' = totalW cv - min q (supportW cv c) ∧ WFW cv' ∧ (∀ bw ∈ cv, ballotScore bw.1 c = none → bw ∈ cv') :=
+  fractionOut_spends _ cv c q cv' h (by omega) hq hwf
+
+/-- a full run where every quota finds its supporters -/
+example : allocatedSelector Gen.Quota.hare [([(0, 5), (1, 2), (2, 1)], 2), ([(0, 1), (1, 3), (2, 0)], 2)] 3
+    = .ok [Key.cand 0, Key.cand 1, Key.cand 2] := by decide +kernel
+example : WFW [([(0, 5), (1, 2), (2, 1)], 2), ([(0, 1), (1, 3), (2, 0)], 2)] := by
+  refine ⟨by decide +kernel, ?_⟩
+  intro bw hbw
+  simp at hbw
+  rcases hbw with rfl | rfl <;> norm_num
 
 /-! ### Witnesses of the open findings (the model reproduces the defects of the current code)
 
